@@ -29,6 +29,9 @@ pub enum H {
 	Act { inst: u16, cmd: Cmd },
 	Unsub { conn: u8, target: Target, other_family: bool },
 	PeerClose { conn: u8, abrupt: bool },
+	/// the peer of this slot goes away (if it is still there) and a new peer connects in its place: a new connection,
+	/// which has nothing to do with the subscriptions of the old one
+	Reconnect { conn: u8 },
 	Stop,
 	PauseRead { conn: u8 },
 	ResumeRead { conn: u8 },
@@ -51,6 +54,9 @@ pub struct SubCase {
 	/// every connection's service is built by `builder.clone().set_rpc_middleware(..).build(..)` (0 = no, 1 = rpc, 2 = http, 3 = both)
 	#[serde(default)]
 	pub per_conn_middleware: u8,
+	/// string subscription ids that need escaping
+	#[serde(default)]
+	pub id_escapes: bool,
 }
 
 #[derive(Clone, Debug, PartialEq)]
@@ -64,6 +70,8 @@ pub enum Phase {
 
 #[derive(Clone, Debug)]
 pub struct Inst {
+	/// generation of the connection slot this instance belongs to (slots are re-used by `Reconnect`)
+	pub cgen: u32,
 	pub conn: usize,
 	pub b: bool,
 	pub req_id: String,
@@ -80,6 +88,7 @@ pub struct Inst {
 }
 
 pub struct ConnM {
+	pub cgen: u32,
 	pub ws: Option<WsPeer>,
 	pub open: bool,
 	pub frames: Vec<Value>,
@@ -110,6 +119,9 @@ pub struct SubWorld {
 	pub cap: u32,
 	/// how many subscriptions were given an id that an earlier one had
 	pub reused: u32,
+	pub reconnects: u32,
+	duplex: usize,
+	lowlevel: bool,
 }
 
 fn family(b: bool) -> (&'static str, &'static str, &'static str) {
@@ -118,19 +130,24 @@ fn family(b: bool) -> (&'static str, &'static str, &'static str) {
 
 impl SubWorld {
 	pub async fn new(case: &SubCase, duplex: usize, exact: bool) -> SubWorld {
-		let fix = Fixture::new_with(Cfg { max_subs: case.cap, buffer_capacity: case.buf.max(1), via_set_rpc_middleware: case.per_conn_middleware & 1 != 0, via_set_http_middleware: case.per_conn_middleware & 2 != 0, ..Cfg::default() }, case.string_ids);
+		let fix = Fixture::new_with(Cfg { max_subs: case.cap, buffer_capacity: case.buf.max(1), via_set_rpc_middleware: case.per_conn_middleware & 1 != 0, via_set_http_middleware: case.per_conn_middleware & 2 != 0, id_escapes: case.id_escapes, ..Cfg::default() }, case.string_ids);
 		let mut conns = vec![];
 		for _ in 0..case.conns.clamp(1, 3) {
 			let ws = if case.lowlevel { fix.ws_lowlevel().await.ok() } else { fix.ws_with(duplex).await.ok() };
-			conns.push(ConnM { open: ws.is_some(), ws, frames: vec![], reading_paused: false, closed_by_stop: false });
+			conns.push(ConnM { cgen: 0, open: ws.is_some(), ws, frames: vec![], reading_paused: false, closed_by_stop: false });
 		}
-		SubWorld { fix, conns, insts: vec![], pending: vec![], acks: vec![], n: 0, req_no: 0, stopped: false, unsub_results: vec![], refusals: vec![], failures: vec![], exact, cap: case.cap, reused: 0 }
+		SubWorld { fix, conns, insts: vec![], pending: vec![], acks: vec![], n: 0, req_no: 0, stopped: false, unsub_results: vec![], refusals: vec![], failures: vec![], exact, cap: case.cap, reused: 0, reconnects: 0, duplex, lowlevel: case.lowlevel }
+	}
+
+	/// the connection this instance was made on is still there
+	pub fn alive(&self, x: &Inst) -> bool {
+		self.conns[x.conn].open && self.conns[x.conn].cgen == x.cgen
 	}
 
 	pub fn held_permits(&self, conn: usize) -> usize {
 		self.insts
 			.iter()
-			.filter(|i| i.conn == conn)
+			.filter(|i| i.conn == conn && i.cgen == self.conns[conn].cgen)
 			.filter(|i| match i.phase {
 				Phase::Pending => i.returned.is_none(),
 				Phase::Accepted => i.sinks_live > 0 && i.returned.is_none(),
@@ -142,12 +159,12 @@ impl SubWorld {
 	/// "active" as the property states it
 	pub fn active(&self, i: usize) -> bool {
 		let x = &self.insts[i];
-		x.phase == Phase::Accepted && !x.unsubscribed && self.conns[x.conn].open && !self.stopped && x.sinks_live > 0 && x.returned.is_none()
+		x.phase == Phase::Accepted && !x.unsubscribed && self.alive(x) && !self.stopped && x.sinks_live > 0 && x.returned.is_none()
 	}
 
 	pub fn model_closed(&self, i: usize) -> bool {
 		let x = &self.insts[i];
-		x.unsubscribed || !self.conns[x.conn].open || self.stopped
+		x.unsubscribed || !self.alive(x) || self.stopped
 	}
 
 	pub async fn drain(&mut self) {
@@ -256,8 +273,10 @@ impl SubWorld {
 					let i = pick_idx(*k, self.insts.len());
 					if let Some(id) = self.insts[i].sub_id.clone() {
 						// every subscription of this connection that has (or may still get) that id must be over
+						let cgen = self.conns[ci].cgen;
 						let free = self.insts.iter().all(|x| {
 							x.conn != ci
+								|| x.cgen != cgen
 								|| match x.phase {
 									Phase::Pending => false,
 									Phase::Accepted => x.sub_id.as_ref() != Some(&id) || x.unsubscribed || x.returned.is_some() || x.sinks_live == 0,
@@ -285,7 +304,7 @@ impl SubWorld {
 				self.fix.forced_ids.lock().clear();
 				let refused = self.conns[ci].frames.iter().any(|f| f["id"] == json!(rid) && f["error"]["code"] == json!(-32006));
 				if actors_after > actors_before {
-					self.insts.push(Inst { conn: ci, b: *b, req_id: rid.clone(), phase: Phase::Pending, sub_id: None, sinks_live: 0, clone_dropped: false, returned: None, unsubscribed: false, close_observed: false, sends: vec![], actor_busy: false });
+					self.insts.push(Inst { cgen: self.conns[ci].cgen, conn: ci, b: *b, req_id: rid.clone(), phase: Phase::Pending, sub_id: None, sinks_live: 0, clone_dropped: false, returned: None, unsubscribed: false, close_observed: false, sends: vec![], actor_busy: false });
 				}
 				if self.exact {
 					let want_refused = held as u32 >= self.cap;
@@ -334,7 +353,7 @@ impl SubWorld {
 				let rid = format!("unsub-req-{}", self.req_no);
 				// the request names an id, not an instance: it hits whichever subscription of this connection and family
 				// is active under that id right now (ids may be handed out again)
-				let hit = (0..self.insts.len()).find(|&j| self.insts[j].conn == ci && self.insts[j].b == fam_b && self.insts[j].sub_id.as_ref() == Some(&x) && self.active(j));
+				let hit = (0..self.insts.len()).find(|&j| self.insts[j].conn == ci && self.insts[j].cgen == self.conns[ci].cgen && self.insts[j].b == fam_b && self.insts[j].sub_id.as_ref() == Some(&x) && self.active(j));
 				let want_true = hit.is_some();
 				let msg = json!({"jsonrpc":"2.0","id":rid,"method":family(fam_b).1,"params":[x]});
 				if let Some(ws) = self.conns[ci].ws.as_mut() {
@@ -374,6 +393,26 @@ impl SubWorld {
 					}
 				}
 				self.conns[ci].open = false;
+			}
+			H::Reconnect { conn } => {
+				let ci = *conn as usize % self.conns.len();
+				if self.stopped {
+					return;
+				}
+				settle().await;
+				self.drain().await;
+				if self.conns[ci].open {
+					if let Some(ws) = self.conns[ci].ws.as_mut() {
+						ws.abort();
+					}
+					self.conns[ci].open = false;
+					settle().await;
+					self.drain().await;
+				}
+				let ws = if self.lowlevel { self.fix.ws_lowlevel().await.ok() } else { self.fix.ws_with(self.duplex).await.ok() };
+				let cgen = self.conns[ci].cgen + 1;
+				self.conns[ci] = ConnM { cgen, open: ws.is_some(), ws, frames: vec![], reading_paused: false, closed_by_stop: false };
+				self.reconnects += 1;
 			}
 			H::Stop => {
 				if !self.stopped {
@@ -490,6 +529,9 @@ pub fn arb_step(with_pauses: bool) -> BoxedStrategy<H> {
 		4 => (0u8..3, prop_oneof![6 => any::<u16>().prop_map(Target::Inst), 1 => Just(Target::Stale), 1 => (0u8..4).prop_map(Target::Garbage)], proptest::bool::weighted(0.1)).prop_map(|(conn, target, other_family)| H::Unsub { conn, target, other_family }),
 		1 => (0u8..3, any::<bool>()).prop_map(|(conn, abrupt)| H::PeerClose { conn, abrupt }),
 	];
+	if !with_pauses {
+		return prop_oneof![20 => base, 1 => (0u8..3).prop_map(|conn| H::Reconnect { conn })].boxed();
+	}
 	if with_pauses {
 		prop_oneof![
 			20 => base.clone(),
